@@ -100,6 +100,23 @@ def run(pid: str, tier: str, fn: Callable[[str], Result], replay: Optional[str] 
             json.dump({"property": pid, "key": o.key(), **o.as_dict()}, open(path, "w"), indent=1)
             print(f"  {o.rule} {o.site} in {o.func}: {o.construct} -- {o.detail}")
             print(f"VIOLATION property={pid} replay={path}")
+    if tier == "thorough" and not os.environ.get("JSTAT_REPO_IS_VARIANT"):
+        try:
+            from .selftest.run import run as selftest_run
+            st = selftest_run([pid], jobs=int(os.environ.get("JSTAT_JOBS", "16")))
+            unexpected = [r for r in st if r["status"] not in ("caught", "silent")]
+            res.extra["selftest"] = {
+                "what": "scratch variants of the current tree with one AST-computed edit each; breaking variants must be "
+                        "reported with the expected rule, behaviour-preserving twins must stay silent",
+                "variants": len(st), "breaking_caught": sum(1 for r in st if r["status"] == "caught"),
+                "twins_silent": sum(1 for r in st if r["status"] == "silent"),
+                "unexpected": [{k: r.get(k) for k in ("id", "status", "rules", "first", "detail")} for r in unexpected],
+                "results": [{k: r.get(k) for k in ("id", "kind", "status", "rules")} for r in st],
+            }
+            for r in unexpected:
+                print(f"SELFTEST-NOTE property={pid} variant={r['id']} status={r['status']}")
+        except Exception as e:  # the self-test never decides the property
+            res.extra["selftest"] = {"error": repr(e)}
     n_ob = len(res.obligations)
     n_ok = sum(1 for o in res.obligations if o.ok is True)
     n_und = sum(1 for o in res.obligations if o.ok is None)
